@@ -278,8 +278,9 @@ class Harness:
     def window(self, op):
         """C03: time-window read against the reference, tolerance 2 ms at the edges."""
         bid = op["bucket"]
-        start = dt(op["start"]) if op.get("start") is not None else None
-        end = dt(op["end"]) if op.get("end") is not None else None
+        tz = timezone(timedelta(minutes=op.get("tz_min", 0)))
+        start = dt(op["start"]).astimezone(tz) if op.get("start") is not None else None
+        end = dt(op["end"]).astimezone(tz) if op.get("end") is not None else None
         limit = op.get("limit", -1)
         TOL = 2 * MS
         got = self.ds[bid].get(limit, start, end)
@@ -356,6 +357,8 @@ class OpGen:
         grid = r.choice([6, 6, 20])
         ts = BASE + r.randint(0, grid) * MS
         dur = r.choice([0, 0, 1, 2, 3, 5, 1000]) * MS
+        if self.focus == "C03" and r.random() < 0.3:
+            dur = r.choice([3600, 12 * 3600, 23 * 3600, 86400 - 1]) * 10 ** 6 + r.randint(0, 999) * MS      # up to 24 h long
         if self.focus == "C01":
             ts = r.randint(0, 4102444800 * 1000) * MS
             dur = r.choice([0, 1, 999999, 1000001, r.randint(0, 30 * 86400 * 10 ** 6)])
@@ -414,9 +417,11 @@ class OpGen:
         if x < 0.92:
             return {"op": "missing", "name": "nope%d" % r.randint(0, 3)}
         s = BASE + r.randint(-2, 22) * MS + r.choice([0, 0, 1, 499, 999])
+        if r.random() < 0.25:
+            s = BASE + r.randint(0, 26) * 3600 * 10 ** 6 + r.randint(0, 5) * MS     # hours away: long events matter
         e = s + r.choice([0, 0, 1, 2, 5, 30]) * MS + r.choice([0, 0, 1, 500])
         return {"op": "window", "bucket": bid, "start": r.choice([s, s, None]), "end": r.choice([e, e, None]),
-                "limit": r.choice([-1, -1, 0, 1, 2, 5])}
+                "limit": r.choice([-1, -1, 0, 1, 2, 5]), "tz_min": r.choice([0, 0, 60, 330, 840, -480, -720])}
 
 
 def run_history(backend, ops, tmp, stop_at_first=True):
